@@ -484,6 +484,51 @@ func runC08(r *drv.Run) drv.Spec {
 			e.sample(map[string]interface{}{"kind": h.kind, "script": strings.Split(strings.TrimSpace(rs.Job.Text), "\n"), "observed_statuses": statusList(rs.Objs)})
 		}
 	}
+	// The buffer contract under the finest interleaving of the two streams:
+	// small valid io_transformer inputs decoded with source and destination both
+	// handed over in pieces of 1..40 bytes (exact-size source windows); the
+	// driver's per-call checks (ri <= wi <= len, monotonic indexes, source bytes
+	// and written destination bytes untouched) are the oracle.
+	items := smallCorpus(r, "c08fine", 600, 30, 0)
+	corpus.WriteItems(r.Scratch+"/c08f", items, "f")
+	var fjobs []*wd.Job
+	nk := map[string]int{}
+	per := 4
+	if r.Thorough() {
+		per = 60
+	}
+	for _, it := range items {
+		if isImage(it.Kind) || isToken(it.Kind) || isHasher(it.Kind) || !it.Valid || len(it.Enc) < 8 || nk[it.Kind] >= per {
+			continue
+		}
+		nk[it.Kind]++
+		fjobs = append(fjobs, fineBothAxesJobs(r, it, len(fjobs))...)
+	}
+	for _, rs := range e.run("asan", fjobs, "c08-fine", 3000) {
+		if rs == nil || rs.NotRun {
+			continue
+		}
+		it := rs.Job.Tag.(*corpus.Item)
+		desc := itemDesc(it)
+		desc["enc_hex"] = hex.EncodeToString(it.Enc)
+		desc["job"] = rs.Job.Text
+		if rs.CrashK != "" {
+			e.commonMonitors("protocol", "asan", rs, desc)
+			continue
+		}
+		for _, m := range rs.Mon() {
+			if strings.Contains(m, "internal error status") {
+				continue
+			}
+			e.viol("buffer-contract:"+it.Kind+":"+monClass(m), fmt.Sprintf("%s: %s", it.Kind, m), desc)
+		}
+		if rs.Ended && len(rs.Objs) > 0 {
+			o := rs.First()
+			e.eval(1)
+			e.count("fine_both_axes_calls", wd.Num(o, "calls"))
+			e.class(fmt.Sprintf("fine-both|%s|%s", it.Kind, wd.Str(o, "status")))
+		}
+	}
 	return sp
 }
 
